@@ -24,6 +24,7 @@ into a pygame gui.
 #        starting to calculate again
 
 import os
+import errno
 import random
 import socket
 import struct
@@ -386,6 +387,15 @@ class _UdpServer(object):  # pragma: no cover
                 # usable and the other peers are not affected
                 self.ctxt.log.warning("recvfrom error: %s:%s: %s" % (type(e), e, self.sock.fileno()))
                 continue
+            except OSError as e:
+                # windows reports a datagram that is larger than the
+                # receive buffer as an error (WSAEMSGSIZE) where other
+                # systems truncate it. the oversized datagram is dropped,
+                # the socket is still usable
+                if e.errno in (errno.EMSGSIZE, 10040) or getattr(e, 'winerror', None) == 10040:
+                    self.ctxt.log.warning("recvfrom error: dropping oversized datagram: %s" % e)
+                    continue
+                raise
 
             if addr[0] in self.ctxt.blocklist:
                 continue
